@@ -681,7 +681,11 @@ func (tx *Tx) prefixScanByHintBPTSparseIdx(bucket string, prefix []byte, offsetN
 	}
 
 	leftNum := limitNum - len(es)
-	if leftNum > 0 {
+	if limitNum == ScanNoLimit {
+		// no limit: the files on disk always take part
+		leftNum = ScanNoLimit
+	}
+	if leftNum > 0 || limitNum == ScanNoLimit {
 		entries, voff, err := tx.prefixScanOnDisk(bucket, prefix, offsetNum, leftNum)
 		if err != nil {
 			return nil, off, err
@@ -725,7 +729,11 @@ func (tx *Tx) prefixSearchScanByHintBPTSparseIdx(bucket string, prefix []byte, r
 	}
 
 	leftNum := limitNum - len(es)
-	if leftNum > 0 {
+	if limitNum == ScanNoLimit {
+		// no limit: the files on disk always take part
+		leftNum = ScanNoLimit
+	}
+	if leftNum > 0 || limitNum == ScanNoLimit {
 		entries, voff, err := tx.prefixSearchScanOnDisk(bucket, prefix, reg, offsetNum, leftNum)
 		if err != nil {
 			return nil, off, err
